@@ -91,12 +91,24 @@ func Harness_C09_step() {
 		var cerr error
 		returned := false
 		ctx, cancel := context.WithCancel(context.Background())
+		sendFails := push && !stopped && nondetBool("push-send-fails")
+		if sendFails {
+			ch.sendFail = 1
+		}
 		go func() {
 			rsp, cerr = s.Callback(ctx, "cb", nil)
 			returned = true
 		}()
 		quiesce()
 		switch {
+		case sendFails:
+			vassert(returned && cerr != nil, "C09: a push whose transmission fails is reported")
+			// the caller's context never ends; the server stops: nothing may stay behind
+			s.Stop()
+			quiesce()
+			vassert(liveThreads() == "", "C08: no goroutine is left behind after the server stopped")
+			reach("push-send-failed")
+			return
 		case !push:
 			vassert(returned && cerr == ErrPushUnsupported && ch.sends == 0, "C09: without AllowPush Callback reports ErrPushUnsupported and transmits nothing")
 			reach("callback-unsupported")
